@@ -14,7 +14,8 @@ use serde::{Deserialize, Serialize};
 #[derive(Clone, Debug, Serialize, Deserialize, PartialEq)]
 pub enum Prim {
     GhClassic { outlen: usize, keylen: usize },
-    /// object API: variant 0 = <32,32>, 1 = <64,64>, 2 = <16,16>, 3 = <32,64>
+    /// object API: variant 0 = <32,32>, 1 = <64,64>, 2 = <16,16>, 3 = <32,64>,
+    /// 4 = <32,32> keyed with a 48-byte `Vec<u8>` (a container longer than KEY_LENGTH)
     GhObj { variant: u8, keyed: bool },
     AuthClassic,
     AuthObj,
@@ -52,7 +53,7 @@ impl Prim {
     }
 }
 
-#[derive(Clone, Debug, Serialize, Deserialize, PartialEq)]
+#[derive(Clone, Copy, Debug, Serialize, Deserialize, PartialEq)]
 pub enum Policy {
     UniformSmall,
     Dribble,
@@ -72,6 +73,9 @@ pub struct Config {
     pub key_fill: u64,
     pub policy: Policy,
     pub backend: String,
+    /// 0 = seeded pattern; n > 0 = entry n of the special-operand corpus (Poly1305 carry vectors)
+    #[serde(default)]
+    pub special: u8,
 }
 
 #[derive(Clone, Debug, Serialize, Deserialize)]
@@ -86,6 +90,7 @@ enum St {
     Gh6464(dryoc::generichash::GenericHash<64, 64>),
     Gh1616(dryoc::generichash::GenericHash<16, 16>),
     Gh3264(dryoc::generichash::GenericHash<32, 64>),
+    Gh3232Vec(dryoc::generichash::GenericHash<32, 32>),
     AuthC(AuthState),
     AuthO(dryoc::auth::Auth),
     OtaC(OnetimeauthState),
@@ -106,6 +111,74 @@ pub struct ChunkWorld {
     finalised: bool,
     n_events: usize,
 }
+
+/// Operands known to exercise the carry chains of the Poly1305 limbs (RFC 7539
+/// appendix A.3 #5-#11 and two r = 1 constructions): (key, message). Sampling
+/// random bytes meets such accumulator values with probability ~2^-38 per
+/// block, so the schedules are also run over this small corpus.
+fn special_operands(n: u8) -> Option<([u8; 32], Vec<u8>)> {
+    let mut key = [0u8; 32];
+    let ff = [0xffu8; 16];
+    let blk = |first: u8, rest: u8| -> Vec<u8> {
+        let mut b = vec![rest; 16];
+        b[0] = first;
+        b
+    };
+    let mut m: Vec<u8> = Vec::new();
+    match n {
+        1 => {
+            key[0] = 2;
+            m.extend_from_slice(&ff);
+        }
+        2 => {
+            key[0] = 2;
+            key[16..].copy_from_slice(&ff);
+            m.extend(blk(2, 0));
+        }
+        3 => {
+            key[0] = 1;
+            m.extend_from_slice(&ff);
+            m.extend(blk(0xf0, 0xff));
+            m.extend(blk(0x11, 0));
+        }
+        4 => {
+            key[0] = 1;
+            m.extend_from_slice(&ff);
+            m.extend(blk(0xfb, 0xfe));
+            m.extend(blk(0x01, 0x01));
+        }
+        5 => {
+            key[0] = 2;
+            m.extend(blk(0xfd, 0xff));
+        }
+        6 | 7 => {
+            key[0] = 1;
+            key[8] = 4;
+            m.extend_from_slice(&[0xE3, 0x35, 0x94, 0xD7, 0x50, 0x5E, 0x43, 0xB9, 0, 0, 0, 0, 0, 0, 0, 0]);
+            m.extend_from_slice(&[0x33, 0x94, 0xD7, 0x50, 0x5E, 0x43, 0x79, 0xCD, 1, 0, 0, 0, 0, 0, 0, 0]);
+            m.extend_from_slice(&[0u8; 16]);
+            if n == 6 {
+                m.extend(blk(1, 0));
+            }
+        }
+        8 => {
+            key[0] = 1;
+            key[16..].copy_from_slice(&[0xa5; 16]);
+            m.extend_from_slice(&[0u8; 48]);
+            m.extend_from_slice(&ff);
+            m.extend_from_slice(&[0x01; 16]);
+        }
+        9 => {
+            // clamped maximum r, all-0xff data: every limb product carries
+            key[..16].copy_from_slice(&[0xff, 0xff, 0xff, 0x0f, 0xfc, 0xff, 0xff, 0x0f, 0xfc, 0xff, 0xff, 0x0f, 0xfc, 0xff, 0xff, 0x0f]);
+            key[16..].copy_from_slice(&ff);
+            m.extend_from_slice(&[0xff; 160]);
+        }
+        _ => return None,
+    }
+    Some((key, m))
+}
+pub const SPECIAL_COUNT: u8 = 9;
 
 pub fn backend_name() -> &'static str {
     if cfg!(feature = "simd") {
@@ -183,6 +256,10 @@ impl ChunkWorld {
                     let k: StackByteArray<16> = StackByteArray::try_from(&key[..16]).unwrap();
                     St::Gh1616(dryoc::generichash::GenericHash::new(if *keyed { Some(&k) } else { None }).expect("gh new"))
                 }
+                4 => {
+                    let k: Vec<u8> = key[..48].to_vec();
+                    St::Gh3232Vec(dryoc::generichash::GenericHash::new(if *keyed { Some(&k) } else { None }).expect("gh new"))
+                }
                 _ => {
                     let k: StackByteArray<32> = StackByteArray::try_from(&key[..32]).unwrap();
                     St::Gh3264(dryoc::generichash::GenericHash::new(if *keyed { Some(&k) } else { None }).expect("gh new"))
@@ -213,6 +290,7 @@ impl ChunkWorld {
             St::Gh6464(s) => s.update(chunk),
             St::Gh1616(s) => s.update(chunk),
             St::Gh3264(s) => s.update(chunk),
+            St::Gh3232Vec(s) => s.update(chunk),
             St::AuthC(s) => crypto_auth_update(s, chunk),
             St::AuthO(s) => s.update(&v),
             St::OtaC(s) => crypto_onetimeauth_update(s, chunk),
@@ -268,6 +346,13 @@ impl ChunkWorld {
                 let k: StackByteArray<16> = StackByteArray::try_from(&key[..16]).unwrap();
                 let a = s.finalize_to_vec().expect("finalize");
                 let b = dryoc::generichash::GenericHash::<16, 16>::hash_to_vec(&fed.to_vec(), if keyed { Some(&k) } else { None }).expect("hash");
+                (a, b, None)
+            }
+            St::Gh3232Vec(s) => {
+                let keyed = matches!(self.cfg.prim, Prim::GhObj { keyed: true, .. });
+                let k: Vec<u8> = key[..48].to_vec();
+                let a = s.finalize_to_vec().expect("finalize");
+                let b = dryoc::generichash::GenericHash::<32, 32>::hash_to_vec(&fed.to_vec(), if keyed { Some(&k) } else { None }).expect("hash");
                 (a, b, None)
             }
             St::Gh3264(s) => {
@@ -354,7 +439,7 @@ impl World for ChunkWorld {
         // the SIMD build differs from the software build only in BLAKE2b
         let prim = match if cfg!(feature = "simd") { rng.below(5) } else { rng.below(14) } {
             0..=2 => Prim::GhClassic { outlen: rng.range(16, 64) as usize, keylen: if rng.chance(1, 2) { rng.range(16, 64) as usize } else { 0 } },
-            3..=4 => Prim::GhObj { variant: rng.below(4) as u8, keyed: rng.chance(1, 2) },
+            3..=4 => Prim::GhObj { variant: rng.below(5) as u8, keyed: rng.chance(1, 2) },
             5 => Prim::AuthClassic,
             6 => Prim::AuthObj,
             7..=8 => Prim::OtaClassic,
@@ -379,12 +464,25 @@ impl World for ChunkWorld {
             6 => Policy::Huge,
             _ => Policy::Mixed,
         };
-        Config { prop: prop.to_string(), prim, msg_len, fill: rng.next_u64() % 1000, key_fill: rng.next_u64() % 1000, policy, backend: backend_name().to_string() }
+        let special = if matches!(prim, Prim::OtaClassic | Prim::OtaObj) && rng.chance(1, 6) { 1 + rng.below(SPECIAL_COUNT as u64) as u8 } else { 0 };
+        let msg_len = match special_operands(special) {
+            Some((_, m)) => m.len(),
+            None => msg_len,
+        };
+        // the corpus messages are short: cut them everywhere, not by one fixed policy
+        let policy = if special > 0 { *rng.pick(&[Policy::UniformSmall, Policy::Mixed, Policy::BlockAligned, Policy::OffByOne, Policy::TopUp]) } else { policy };
+        Config { prop: prop.to_string(), prim, msg_len, fill: rng.next_u64() % 1000, key_fill: rng.next_u64() % 1000, policy, backend: backend_name().to_string(), special }
     }
 
     fn new(cfg: &Config) -> Self {
-        let msg = pattern(cfg.fill, cfg.msg_len);
-        let key = pattern(cfg.key_fill * 4 + 1, 64);
+        let (msg, key) = match special_operands(cfg.special) {
+            Some((k, m)) => {
+                let mut key = k.to_vec();
+                key.extend_from_slice(&pattern(cfg.key_fill * 4 + 1, 32));
+                (m, key)
+            }
+            None => (pattern(cfg.fill, cfg.msg_len), pattern(cfg.key_fill * 4 + 1, 64)),
+        };
         let st = Self::init_state(cfg, &key);
         ChunkWorld { cfg: cfg.clone(), msg, key, fed: 0, st, finalised: false, n_events: 0 }
     }
